@@ -389,3 +389,32 @@ def run (s : Sys) : List Act → Sys
     | _ => run s r
 
 end ZodbModel.Mvcc
+
+/-! ### FilePool (FileStorage's reader pool / writer lock), one action per `with self._cond:` block -/
+namespace ZodbModel.Mvcc.FilePool
+
+structure Pool where
+  writers : Nat := 0        -- `writers`: finishers that announced themselves
+  writing : Bool := false   -- `writing`: a finisher holds the write lock
+  out : Nat := 0            -- `len(_out)`: reader files handed out
+
+inductive PAct where
+  | announce      -- write_lock: `writers += 1`
+  | acquire       -- write_lock: wait until `not writing and not _out`, then `writing = True`
+  | release       -- write_lock exit: `writing = False; writers -= 1; notify_all`
+  | get           -- get: wait until `not writers`, hand a file out
+  | put           -- get exit: the file goes back
+deriving DecidableEq
+
+def pstep (p : Pool) : PAct → Option Pool
+  | .announce => some { p with writers := p.writers + 1 }
+  | .acquire => if 0 < p.writers ∧ p.writing = false ∧ p.out = 0 then some { p with writing := true } else none
+  | .release => if p.writing = true then some { p with writing := false, writers := p.writers - 1 } else none
+  | .get => if p.writers = 0 then some { p with out := p.out + 1 } else none
+  | .put => if 0 < p.out then some { p with out := p.out - 1 } else none
+
+inductive PReachable : Pool → Prop
+  | init : PReachable {}
+  | step {p p' : Pool} (a : PAct) : PReachable p → pstep p a = some p' → PReachable p'
+
+end ZodbModel.Mvcc.FilePool
